@@ -10,6 +10,7 @@ import WD.Driver.C08
 import WD.Driver.C12
 import WD.Driver.C18
 import WD.Driver.Rst
+import WD.Driver.Shell
 import WD.Driver.C20
 import WD.Driver.Pipe
 import WD.Driver.C19
@@ -36,6 +37,7 @@ def handle (line : String) : String :=
   | "windec" :: ts => c20Line "windec" ts
   | "deb" :: ts => c18Line ts
   | "rst" :: ts => rstLine ts
+  | "shell" :: ts => shellLine ts
   | "fd" :: ts => c12Line "fd" ts
   | "fdctor" :: ts => c12Line "fdctor" ts
   | "ib" :: ts => c08Line ts
